@@ -266,7 +266,7 @@ class State:
         self.flags = flags          # which kinds of operation happened since the last reset (hidden counters, see canon)
 
 
-BASE_OPS = [["read", "array"], ["read", "frame"], ["read", "numpy"], ["arr", "ones"], ["empty"], ["rm", "all"], ["arr", "single"],
+BASE_OPS = [["read", "array"], ["read", "frame"], ["arr", "ones"], ["empty"], ["rm", "all"], ["arr", "single"],
             ["rm", "first"], ["arr", "hole"], ["arr", "zeros"], ["upd", "number"], ["upd", "move"]]
 
 
@@ -292,7 +292,7 @@ def alphabet_by_name(name):
 
 
 def wide_alphabet(small=False):
-    ops = list(BASE_OPS) + [["read", "xarray"], ["rm", "last"]]
+    ops = list(BASE_OPS) + [["read", "xarray"], ["read", "numpy"], ["rm", "last"]]
     for p in POSITIONS:
         ops.append(cl(("n1", p)))
     if not small:
